@@ -75,3 +75,18 @@ Theorem C16_distance_D_from_source : forall p l1 l2 : qpt2,
   gen_PerpendicDistFromLineSqrD (fst p) (snd p) (fst l1) (snd l1) (fst l2) (snd l2) = perp_f64D p l1 l2.
 Proof. exact gen_perpD_eq. Qed.
 Print Assumptions C16_distance_from_source.
+
+(* the clause "with epsilon 0 only exactly collinear vertices disappear, so a closed path's area is
+   unchanged" is FALSE of the code within magnitude 2^29: the float64 cross product a*d - c*b of the
+   faithful model is 0 for a vertex whose exact cross product is not (both products exceed 2^53 and
+   round to the same float).  Recorded in KNOWN_FINDINGS.txt (simplify-float-cancellation). *)
+From Clip Require Import Model.Measures.
+Theorem C16_eps0_area_refuted : exists path r,
+  path_ok two29 path /\ SimplifyPath64_model 0 path true = Some r /\ shoelace2 r <> shoelace2 path.
+Proof.
+  exists [(-421936723, 133894770); (-536870909, -536870909); (-268436679, -268436675); (134214664, 134214674)]%Z.
+  eexists. split; [|split].
+  - repeat constructor; unfold two29; cbn; lia.
+  - vm_compute. reflexivity.
+  - vm_compute. discriminate.
+Qed.
